@@ -478,3 +478,41 @@ End Dot.
 Lemma pidx_group rho (L : list (N * N * bool)) :
   pidx rho (PFl (map leaf_ax L)) = ravel (map (fun x => lookup rho (fst (fst x))) L) (map (fun x => snd (fst x)) L).
 Proof. cbn [pidx]. rewrite !map_map. reflexivity. Qed.
+
+(* ---------------------------------------------------------------- un-bracketed reductions *)
+Lemma pleaves_pmark g p : pleaves (pmark g p) = map (fun x => (fst (fst x), snd (fst x), g (fst (fst x)))) (pleaves p).
+Proof.
+  induction p as [n l m|cs IH|o t i IH] using pex_ind'; cbn [pmark pleaves map fst snd]; [reflexivity| |exact IH].
+  induction IH as [|c r Hc _ IHr]; cbn [map flat_map]; [reflexivity|]. now rewrite map_app, Hc, IHr.
+Qed.
+Lemma leaves_pmark g dims : leaves (map (pmark g) dims) = map (fun x => (fst (fst x), snd (fst x), g (fst (fst x)))) (leaves dims).
+Proof. unfold leaves. induction dims as [|d r IH]; cbn [map flat_map]; [reflexivity|]. now rewrite map_app, pleaves_pmark, IH. Qed.
+
+Theorem automark_spec din dout :
+  lnames (automark din dout) = lnames din /\ llens (automark din dout) = llens din /\
+  lmarks (automark din dout) = map (fun n => negb (memNb n (lnames dout))) (lnames din) /\
+  lnames (kept (automark din dout)) = filter (fun n => memNb n (lnames dout)) (lnames din).
+Proof.
+  unfold automark. repeat split.
+  - unfold lnames. rewrite leaves_pmark, map_map. reflexivity.
+  - unfold llens. rewrite leaves_pmark, map_map. reflexivity.
+  - unfold lmarks, lnames. rewrite leaves_pmark, !map_map. reflexivity.
+  - rewrite kept_lnames, leaves_pmark. unfold lnames. induction (leaves din) as [|x r IH]; cbn [map filter fst snd]; [reflexivity|].
+    rewrite negb_involutive. destruct (memNb (fst (fst x)) _); cbn [map fst]; [f_equal|]; exact IH.
+Qed.
+
+Lemma psize_pmark g p : psize (pmark g p) = psize p.
+Proof.
+  induction p as [n l m|cs IH|o t i IH] using pex_ind'; cbn [pmark psize]; try reflexivity.
+  f_equal. rewrite map_map. apply map_ext_in. intros c Hc. rewrite Forall_forall in IH. exact (IH c Hc).
+Qed.
+Lemma pidx_pmark g rho p : pidx rho (pmark g p) = pidx rho p.
+Proof.
+  induction p as [n l m|cs IH|o t i IH] using pex_ind'; cbn [pmark pidx]; try reflexivity; [|now rewrite IH].
+  rewrite !map_map. rewrite Forall_forall in IH. f_equal; apply map_ext_in; intros c Hc; [exact (IH c Hc)|apply psize_pmark].
+Qed.
+Theorem automark_same_positions rho din dout :
+  map (pidx rho) (automark din dout) = map (pidx rho) din /\ map psize (automark din dout) = map psize din.
+Proof.
+  unfold automark. rewrite !map_map. split; apply map_ext; intros p; [apply pidx_pmark|apply psize_pmark].
+Qed.
